@@ -160,3 +160,68 @@ Proof.
     + intros l -> Hl. split; [apply stamp_tag_rt; exact Hl|]. unfold stamp_imm. apply lat_immediate_false. exact Hl.
   - intros inside ->. split; [apply stamp_tag_nrt|reflexivity].
 Qed.
+
+(* ---- finish() from inside a routine ---------------------------------------------------------------- *)
+Require Import SC3.model.KScore.
+Lemma Qmaxq_cases x y : Qmaxq x y == x \/ Qmaxq x y == y.
+Proof. unfold Qmaxq. destruct (Qle_bool x y); [right|left]; reflexivity. Qed.
+Lemma finish_inside_marker_last tail T st : score_ok st ->
+  let st' := nrt_finish_inside repaired tail T st in
+  exists t g, n_score st' = n_score st ++ [mkS t (n_scnt st) (SBundle false t g [SMsg cset_msg])]
+    /\ t == Qmaxq (Qmaxq (T + tail) (score_last_time (n_score st))) T
+    /\ (forall s, In s (n_score st) -> s_time s <= t)
+    /\ g = Qtrunc (t * two32).
+Proof.
+  intros [Hs Hc] st'. subst st'. unfold nrt_finish_inside. simpl qk_tail_early. cbv iota.
+  set (last := score_last_time (n_score st)). set (l := Qmaxq tail (last - T)).
+  destruct (score_last_time_ge (n_score st) 0) as [Hge H0]. fold (score_last_time (n_score st)) in Hge, H0. fold last in Hge, H0.
+  pose proof (Qmaxq_ge_l tail (last - T)) as Hl1. pose proof (Qmaxq_ge_r tail (last - T)) as Hl2. fold l in Hl1, Hl2.
+  set (t1 := stamp_time (MNrt true) T (Some l)).
+  assert (Ht1 : t1 == T + lat_val (Some l)) by (unfold t1; apply stamp_time_nrt_inside).
+  assert (Hcase : t1 == Qmaxq (Qmaxq (T + tail) last) T /\ last <= t1).
+  { assert (Hm : l == tail \/ l == last - T).
+    { unfold l, Qmaxq. destruct (Qle_bool tail (last - T)); [right|left]; reflexivity. }
+    destruct (Qltb l 0) eqn:El.
+    - assert (Hv : lat_val (Some l) = 0) by (simpl; rewrite El; reflexivity).
+      apply Qltb_lt in El. rewrite Hv in Ht1.
+      assert (last < T) by lra. assert (T + tail < T) by lra. split; [|lra].
+      rewrite Ht1.
+      pose proof (Qmaxq_ge_l (T + tail) last). pose proof (Qmaxq_ge_r (T + tail) last).
+      pose proof (Qmaxq_ge_l (Qmaxq (T + tail) last) T). pose proof (Qmaxq_ge_r (Qmaxq (T + tail) last) T).
+      pose proof (Qmaxq_cases (T + tail) last) as Hmm.
+      pose proof (Qmaxq_cases (Qmaxq (T + tail) last) T) as Hm3.
+      destruct Hmm as [Hmm|Hmm]; destruct Hm3 as [Hm3|Hm3]; lra.
+    - apply Qltb_ge in El. rewrite (lat_val_of_nonneg l El) in Ht1. split; [|lra].
+      rewrite Ht1.
+      pose proof (Qmaxq_ge_l (T + tail) last). pose proof (Qmaxq_ge_r (T + tail) last).
+      pose proof (Qmaxq_ge_l (Qmaxq (T + tail) last) T). pose proof (Qmaxq_ge_r (Qmaxq (T + tail) last) T).
+      pose proof (Qmaxq_cases (T + tail) last) as Hmm.
+      pose proof (Qmaxq_cases (Qmaxq (T + tail) last) T) as Hm3.
+      destruct Hm as [Hm|Hm]; destruct Hmm as [Hmm|Hmm]; destruct Hm3 as [Hm3|Hm3]; lra. }
+  destruct Hcase as [Heq Hlast].
+  assert (Hle : forall s, In s (n_score st) -> s_time s <= t1) by (intros s Hs'; pose proof (Hge s Hs'); lra).
+  exists (Qred t1), (stamp_tag (MNrt true) T (Some l)).
+  assert (Hred : Qred t1 = t1) by (unfold t1, stamp_time; apply Qred_complete, Qred_correct).
+  split; [|split; [|split]].
+  - unfold score_add. simpl. fold t1. rewrite Hred. apply kinsert_last. intros y Hy. simpl.
+    unfold key_leb. specialize (Hle y Hy). specialize (Hc y Hy).
+    destruct (Qltb (s_time y) t1) eqn:E; auto. simpl.
+    apply Qltb_ge in E. rewrite andb_true_iff. split.
+    + apply Qeq_bool_iff. lra.
+    + apply Nat.leb_le. lia.
+  - rewrite Qred_correct. exact Heq.
+  - intros s Hs'. rewrite Qred_correct. auto.
+  - rewrite stamp_tag_nrt. apply Qtrunc_comp. rewrite Qred_correct, Ht1. ring.
+Qed.
+
+Lemma nrt_tail_marker_inside p fuel tail :
+  let st0 := nrt_loop repaired p fuel (nrt_main repaired p) in
+  exists t g, n_score (nrt_run_closed_inside repaired p fuel tail) =
+              n_score st0 ++ [mkS t (n_scnt st0) (SBundle false t g [SMsg cset_msg])]
+    /\ t == Qmaxq (Qmaxq (n_mtime st0 + tail) (score_last_time (n_score st0))) (n_mtime st0)
+    /\ (forall s, In s (n_score st0) -> s_time s <= t)
+    /\ g = Qtrunc (t * two32).
+Proof.
+  intros st0. pose proof (si_score _ _ (sinv_reach repaired p fuel) eq_refl) as Hs. fold st0 in Hs.
+  exact (finish_inside_marker_last tail (n_mtime st0) st0 Hs).
+Qed.
